@@ -27,11 +27,14 @@ pub struct StabCase {
     pub table2: Vec<Vec<usize>>,
     pub base: usize,
     pub words: Vec<Word>,
+    /// row renumberings (as transpositions) of `table` that the crate's table OBJECT held, and was queried
+    /// with, before it was overwritten with `table` through the public set(); empty = a fresh object
+    pub history: Vec<Vec<(u32, u32)>>,
 }
 
 impl Case for StabCase {
     fn encode(&self) -> Value {
-        json!({"group": self.name, "nr_gens": self.nr_gens, "relators": self.rels, "order": self.order, "table": self.table, "table2": self.table2, "base": self.base, "words": self.words})
+        json!({"group": self.name, "nr_gens": self.nr_gens, "relators": self.rels, "order": self.order, "table": self.table, "table2": self.table2, "base": self.base, "words": self.words, "object_history": self.history.iter().map(|h| h.iter().map(|s| json!([s.0, s.1])).collect::<Vec<_>>()).collect::<Vec<_>>()})
     }
     fn decode(v: &Value) -> Option<Self> {
         let tab = |k: &str| -> Option<Vec<Vec<usize>>> { v.get(k)?.as_array()?.iter().map(dec_usizes).collect() };
@@ -44,6 +47,7 @@ impl Case for StabCase {
             table2: tab("table2")?,
             base: v.get("base")?.as_u64()? as usize,
             words: dec_words(v.get("words")?)?,
+            history: v.get("object_history").and_then(|h| h.as_array()).map(|hs| hs.iter().map(|h| h.as_array().map(|a| a.iter().filter_map(|p| Some((p.get(0)?.as_u64()? as u32, p.get(1)?.as_u64()? as u32))).collect()).unwrap_or_default()).collect()).unwrap_or_default(),
         })
     }
     fn weight(&self) -> usize {
@@ -62,6 +66,27 @@ pub fn to_crate_table(t: &Table) -> CosetTable {
             ct.set(r, -g, t.bwd[r][(g - 1) as usize]);
         }
     }
+    ct
+}
+
+/// a crate table object that held (and was queried with) renumbered copies of the table before
+pub fn to_crate_table_with_history(t: &Table, history: &[Vec<(u32, u32)>], rels: &[FreeWord]) -> CosetTable {
+    if history.is_empty() {
+        return to_crate_table(t);
+    }
+    let mut ct = CosetTable::new(t.nr_gens);
+    for h in history {
+        let prev = crate::props::c05::renumber_rows(t, h);
+        crate::props::c05::install_table(&mut ct, &prev);
+        // use the object the way callers do; results (and panics) are judged on fresh objects elsewhere
+        let _ = guarded(|| {
+            let _ = core_table(&ct);
+            let _ = intersection_table(&ct, &ct);
+            let _ = stabilizer(0, rels.to_vec(), &ct);
+            let _ = rust_dsymbols::fpgroups::cosets::coset_representative(&ct);
+        });
+    }
+    crate::props::c05::install_table(&mut ct, t);
     ct
 }
 
@@ -91,8 +116,9 @@ fn check_stab(c: &StabCase, obs: &mut Obs) -> Result<(), String> {
     ensure!(t.is_transitive() && t.relators_close(&c.rels).is_none() && c.base < t.len(), "harness: table is not a valid transitive action of the group");
     ensure!(c.rels.iter().all(|w| !free_reduce(w).is_empty()), "harness: empty relator");
     let n = t.len();
-    let ct = to_crate_table(&t);
     let relw: Vec<FreeWord> = c.rels.iter().map(|w| fw(w)).collect();
+    let ct = to_crate_table_with_history(&t, &c.history, &relw);
+    obs.classify(!c.history.is_empty(), "table object overwritten through set() after earlier queries");
 
     // ---- stabiliser
     let (sg, sr) = stabilizer(c.base, relw.clone(), &ct);
@@ -194,7 +220,7 @@ fn check_stab(c: &StabCase, obs: &mut Obs) -> Result<(), String> {
     if !c.table2.is_empty() {
         let t2 = Table::from_forward(c.nr_gens, c.table2.clone()).ok_or("harness: second table is not a permutation table")?;
         ensure!(t2.is_transitive() && t2.relators_close(&c.rels).is_none(), "harness: second table invalid");
-        let it = read_table(&intersection_table(&ct, &to_crate_table(&t2)), c.nr_gens).map_err(|e| format!("intersection table: {}", e))?;
+        let it = read_table(&intersection_table(&ct, &to_crate_table_with_history(&t2, &c.history, &relw)), c.nr_gens).map_err(|e| format!("intersection table: {}", e))?;
         ensure!(it.is_transitive(), "intersection table is not transitive");
         if let Some((k, r)) = it.relators_close(&c.rels) {
             return Err(format!("intersection table: relator {:?} does not close at row {}", c.rels[k], r));
@@ -279,6 +305,7 @@ pub fn run(ctx: &mut Ctx) {
                     table2: if base == 0 && other.len() <= 12 { other.fwd.clone() } else { vec![] },
                     base,
                     words: vec![],
+                    history: if (i + base) % 3 == 0 { vec![vec![(0, u32::MAX)], vec![(1 << 30, 3 << 30)]] } else { vec![] },
                 });
             }
         }
@@ -301,15 +328,22 @@ pub fn run(ctx: &mut Ctx) {
                 }
                 let n = c.nr_gens as i64;
                 c.words = ws.into_iter().map(|w| w.into_iter().map(|l| { let a = (l.abs() - 1) % n.max(1) + 1; if l > 0 { a } else { -a } }).collect()).collect();
+                c.history = vec![];
                 c
             })
+            .prop_flat_map(with_history)
         },
         t.pick(20_000, 60_000),
     );
     ctx.layer("random-presentations");
-    ctx.run_prop(&SUB_STAB, random_presentation_case, t.pick(4_000, 60_000));
+    ctx.run_prop(&SUB_STAB, || random_presentation_case().prop_flat_map(with_history), t.pick(4_000, 60_000));
     ctx.layer("imprimitive-actions");
-    ctx.run_prop(&SUB_STAB, imprimitive_case, t.pick(6_000, 100_000));
+    ctx.run_prop(&SUB_STAB, || imprimitive_case().prop_flat_map(with_history), t.pick(6_000, 100_000));
+}
+
+/// half of the cases get a table object with a history (0..=2 earlier renumbered tables)
+fn with_history(c: StabCase) -> impl Strategy<Value = StabCase> {
+    prop::collection::vec(prop::collection::vec((any::<u32>(), any::<u32>()), 1..4), 0..=2).prop_map(move |history| StabCase { history, ..c.clone() })
 }
 
 /// a case on a random presentation: one of its low-index tables (validated), a base row, a second table
@@ -326,7 +360,7 @@ fn random_presentation_case() -> impl Strategy<Value = StabCase> {
         let tab = &tabs[pick_index(pick, tabs.len())];
         let other = &tabs[pick_index(pick2, tabs.len())];
         let words = ws.into_iter().map(|w| w.into_iter().map(|l| { let a = (l.abs() - 1) % n as i64 + 1; if l > 0 { a } else { -a } }).collect()).collect();
-        Some(StabCase { name: g.name, nr_gens: n, rels, order: 0, table: tab.fwd.clone(), table2: other.fwd.clone(), base: pick_index(base, tab.len()), words })
+        Some(StabCase { name: g.name, nr_gens: n, rels, order: 0, table: tab.fwd.clone(), table2: other.fwd.clone(), base: pick_index(base, tab.len()), words, history: vec![] })
     })
 }
 
@@ -383,7 +417,7 @@ fn imprimitive_case() -> impl Strategy<Value = StabCase> {
             // a second action for the intersection: the action on the blocks
             let table2: Vec<Vec<usize>> = if with_second { (0..m).map(|k| gens.iter().map(|p| p[idx(k, 0)] / b).collect()).collect() } else { vec![] };
             let words = ws.into_iter().map(|w| w.into_iter().map(|l| { let a = (l.abs() - 1) % g as i64 + 1; if l > 0 { a } else { -a } }).collect()).collect();
-            Some(StabCase { name: format!("free group on {} generators acting imprimitively on {} blocks of {} points", g, m, b), nr_gens: g, rels: vec![], order: 0, table: fwd, table2, base: pick_index(base, n), words })
+            Some(StabCase { name: format!("free group on {} generators acting imprimitively on {} blocks of {} points", g, m, b), nr_gens: g, rels: vec![], order: 0, table: fwd, table2, base: pick_index(base, n), words, history: vec![] })
         })
 }
 
